@@ -1,29 +1,30 @@
 import Evenio.Generated.Gates
 import Evenio.Model.Query
 /-! The `ReadOnlyQuery` gate as a function of the query, driven by the table regenerated from the marker impls in
-    `query.rs` / `evenio_macros` (`Evenio.Gates.ro_*`). -/
+    `query.rs` / `evenio_macros` (`Evenio.Gates.ro_*`). The driver answers `gate <query>` lines with it (C18
+    correspondence against rustc) and `Props/C18.lean` proves it sound. -/
 namespace Evenio
 open Gates
 
-def Gates.RO.apply (r : RO) (inner : Bool) : Bool :=
-  match r with
-  | .never => false
-  | .always => true
-  | .inner => inner
+/-- how a marker-impl shape decides `Q: ReadOnlyQuery`, given whether all type arguments are -/
+def Gates.RO.eval : RO → Bool → Bool
+  | .never, _ => false
+  | .always, _ => true
+  | .inner, args => args
 
-/-- does rustc find a `ReadOnlyQuery` impl for the query type? -/
-def Query.roGate : Query → Bool
-  | .ref _ => ro_ref.apply true
-  | .mut _ => ro_mut.apply true
-  | .unit => ro_tup.apply true
-  | .snoc t q => ro_tup.apply (roGate t && roGate q)
-  | .opt q => ro_opt.apply (roGate q)
-  | .or l r => ro_or.apply (roGate l && roGate r)
-  | .xor l r => ro_xor.apply (roGate l && roGate r)
-  | .not q => ro_not.apply (roGate q)
-  | .wth q => ro_wth.apply (roGate q)
-  | .has q => ro_has.apply (roGate q)
-  | .eid => ro_eid.apply true
-  | .phantom => ro_phantom.apply true
+/-- `Q: ReadOnlyQuery`, decided by the generated marker-impl table.  `()` is the 0-ary tuple. -/
+def Query.readOnlyGate : Query → Bool
+  | .ref _ => ro_ref.eval true
+  | .mut _ => ro_mut.eval true
+  | .unit => ro_tup.eval true
+  | .snoc t q => ro_tup.eval (t.readOnlyGate && q.readOnlyGate)
+  | .opt q => ro_opt.eval q.readOnlyGate
+  | .or l r => ro_or.eval (l.readOnlyGate && r.readOnlyGate)
+  | .xor l r => ro_xor.eval (l.readOnlyGate && r.readOnlyGate)
+  | .not q => ro_not.eval q.readOnlyGate
+  | .wth q => ro_wth.eval q.readOnlyGate
+  | .has q => ro_has.eval q.readOnlyGate
+  | .eid => ro_eid.eval true
+  | .phantom => ro_phantom.eval true
 
 end Evenio
